@@ -33,11 +33,11 @@ MIN_NONTRIVIAL = {"quick": 1500, "thorough": 30000}
 MIN_HIST = {"quick": {"expiry-12h-judged": 60, "lifetime-judged": 100, "long-session-packets": 4500},
             "thorough": {"expiry-12h-judged": 2000, "lifetime-judged": 2000, "long-session-packets": 66000}}
 WORKERS = {"quick": 1, "thorough": 16}
-EXHAUSTIVE = {"quick": ["all histories of depth <= 3 over the 11-letter alphabet (lifetime rotating), depth <= 2 x all 4 lifetimes"],
-              "thorough": ["all histories of depth <= 4 over the 11-letter alphabet (lifetime rotating), depth <= 3 x all 4 lifetimes"]}
+EXHAUSTIVE = {"quick": ["all histories of depth <= 3 over the 12-letter alphabet (lifetime rotating), depth <= 2 x all 4 lifetimes"],
+              "thorough": ["all histories of depth <= 4 over the 12-letter alphabet (lifetime rotating), depth <= 3 x all 4 lifetimes"]}
 
 LETTERS = ["send", "auth_good", "auth_bad_token", "send_silent", "send_error", "fin", "fin_refuse_send", "jump_small", "jump12",
-           "jump_life", "send_cancel"]
+           "jump_life", "send_cancel", "auth_abandoned_then_auth"]
 LIFETIMES = [None, 30, 3600, 46800]
 H12 = 12 * 3600
 TOKEN = bytes(range(1, 65))
@@ -83,6 +83,14 @@ def run_case(ctx, case):
     net = H.new_net()
     dev = SimDevice(net, version=3, token=TOKEN, key=KEY, device_id=0xC07)
     mode = {"m": "normal"}
+
+    def on_handshake(conn, ok, reply, info):
+        if mode.get("slow_hs") and ok:
+            mode["slow_hs"] = False
+            return [(0.6, reply)]        # this reply arrives after the caller has given up
+        return None
+
+    dev.on_handshake = on_handshake
 
     def on_exchange(conn, req, packets, meta):
         if mode["m"] == "silent":
@@ -151,6 +159,20 @@ def run_case(ctx, case):
                 await asyncio.sleep(H12 + 120.31)
             elif letter == "jump_life":
                 await asyncio.sleep((lifetime or 600) + 120.53)
+            elif letter == "auth_abandoned_then_auth":
+                # an explicit authenticate is abandoned (cancelled) while the device's reply is still on its way; the reply then
+                # arrives; the caller authenticates again on the same connection
+                mode["slow_hs"] = True
+
+                async def abandoned():
+                    task = asyncio.ensure_future(lan.authenticate(TOKEN, KEY))
+                    await asyncio.sleep(0.2)
+                    task.cancel()
+                    await task
+                await op(loop, lan, "auth_abandoned", abandoned)
+                await asyncio.sleep(0.73)
+                mode["slow_hs"] = False
+                await op(loop, lan, "auth_good", lambda: lan.authenticate(TOKEN, KEY))
             elif letter == "send_cancel":
                 mode["m"] = "silent"
 
